@@ -90,6 +90,14 @@ def check(ctx):
             ctx.no_shape_conflicts("Shape", f"{pkg}.{cname}._update_post_selection (y={with_y})", I, 0, site, cfg)
     # ---------------- R-BUFFERS : cold allocation, all request kinds ------------------
     for pkg, axis, S in (("feature", 1, "M"), ("sample", 0, "N")):
+        if axis == 1:
+            # targets handed to a feature selector (PCov selectors use them for the scores) are not stored: there is
+            # no per-feature target, and a zero buffer left behind would be padded along the wrong axis by a warm start
+            I, st = ctx.interp(), State()
+            o = ctx.bare_object(I, st, base, {"_axis": axis})
+            ctx.call_method(I, st, o, "_init_greedy_search", arr("X", "N", "M"), arr("y", "N", "P"), integer("S"))
+            ys = ctx.attr(st, o, "y_selected_")
+            ctx.ob("R-BUFFERS", "feature: no y_selected_ buffer although targets are given", ys is None or ys.kind == "undef", f"y_selected_ = {ys!r}", ctx.site(P.method(base, "_init_greedy_search")), "feature y=given")
         for with_y in ((True, False) if axis == 0 else (False,)):
             I, st = ctx.interp(), State()
             o = ctx.bare_object(I, st, base, {"_axis": axis})
